@@ -100,6 +100,11 @@ type Config struct {
 	// connection and plays the backend itself (scripted message sequences). Session.DB is nil then; use
 	// the streams returned by Session.DBStreams().
 	DBHandler func(conn net.Conn)
+	// NoticeEvery > 0: the fake database sends a NoticeResponse (asynchronous message, legal at any point of
+	// the protocol between two messages) about this often for as long as the session lives; the client side
+	// drops them (Session.Notices counts them). The database side of the proxy is then busy while the client
+	// side works - the situation of a pipelining client, LISTEN/NOTIFY or a chatty server.
+	NoticeEvery time.Duration
 }
 
 // ErrTimeout marks an I/O deadline hit: the case is inconclusive, never a violation.
@@ -141,6 +146,7 @@ func (s *Session) Panics() []string {
 }
 
 type Session struct {
+	Notices   int // background notices of the fake database dropped by collect()
 	pan       *panics
 	fe        *pgproto3.Frontend
 	clientEnd net.Conn
@@ -295,6 +301,7 @@ func Start(cfg Config) (*Session, error) {
 		go cfg.DBHandler(dbTap)
 	} else {
 		srv = newFakeServer(dbEnd, store)
+		srv.noticeEvery = cfg.NoticeEvery
 		go srv.serve()
 	}
 
@@ -383,6 +390,12 @@ func (s *Session) collect() (*Reply, error) {
 			}
 			r.Rows = append(r.Rows, row)
 			r.Msgs = append(r.Msgs, "D")
+		case *pgproto3.NoticeResponse:
+			if mm.Code == noticeCode {
+				s.Notices++ // the fake database's background noise
+				continue
+			}
+			r.Msgs = append(r.Msgs, "N")
 		case *pgproto3.ErrorResponse:
 			r.Errors = append(r.Errors, mm.Message)
 			r.Msgs = append(r.Msgs, "E")
